@@ -27,8 +27,14 @@ var transientLetters = []Letter{
 
 func genLetter(t *rapid.T, ra string, maxAt int, l2 bool) Letter {
 	switch k := rapid.IntRange(0, 99).Draw(t, "letter"); {
-	case k < 28:
+	case k < 23:
 		return Letter{K: "ok"}
+	case k < 26:
+		return Letter{K: "st", S: 500, RA: ra} // Retry-After is not tied to 429
+	case k < 27:
+		return Letter{K: "st", S: 503, RA: ra}
+	case k < 28:
+		return Letter{K: "st", S: 429, RA: "Wed, 21 Oct 2037 07:28:00 GMT"} // HTTP-date form
 	case k < 58:
 		l := transientLetters[rapid.IntRange(0, len(transientLetters)-1).Draw(t, "tl")]
 		if l.K == "reseta" && l2 {
@@ -95,22 +101,39 @@ func genHost(t *rapid.T, label string, limit int, ra string, maxAt int, hasPct i
 }
 
 func genTopology(t *rapid.T, c *Case, maxAt int, l2 bool) {
-	c.Limit = rapid.IntRange(1, 5).Draw(t, "limit")
+	c.Limit = rapid.SampledFrom([]int{1, 2, 3, 4, 5, 1, 2, 3, 4, 5, 1, 2, 3, 4, 5, 7}).Draw(t, "limit")
 	c.DelayInitMs = rapid.SampledFrom([]int{2, 2, 3, 5, 8, 12, 20}).Draw(t, "dinit")
-	mul := rapid.SampledFrom([]int{1, 2, 2, 4, 0}).Draw(t, "dmaxmul")
+	mul := rapid.SampledFrom([]int{1, 2, 2, 4, 0, -1}).Draw(t, "dmaxmul")
 	if mul == 0 && c.DelayInitMs > 3 {
 		mul = 3
 	}
 	c.DelayMaxMs = c.DelayInitMs * mul
+	if mul < 0 {
+		c.DelayMaxMs = max(c.DelayInitMs/2, 1) // below delayInit: WithDelay raises it to delayInit
+	}
 	ra := rapid.SampledFrom([]string{"0.002", "0.004", "0.01", "0.03", "0.03"}).Draw(t, "ra")
 	if rapid.IntRange(0, 24).Draw(t, "ra1") == 0 {
 		ra = "1"
 	}
 	c.Creds = rapid.IntRange(0, 9).Draw(t, "creds") < 3
+	c.RepoAuth = c.Creds && rapid.IntRange(0, 2).Draw(t, "repoauth") == 0
 	nm := rapid.SampledFrom([]int{0, 0, 1, 1, 2, 2, 2, 3, 3}).Draw(t, "nmirrors")
 	c.Up = genHost(t, "up", c.Limit, ra, maxAt, 88, l2)
+	c.Up.NoHead = rapid.IntRange(0, 39).Draw(t, "up-nohead") == 0
 	for i := 0; i < nm; i++ {
-		c.Mirrors = append(c.Mirrors, genHost(t, "m", c.Limit, ra, maxAt, 50, l2))
+		h := genHost(t, "m", c.Limit, ra, maxAt, 50, l2)
+		if rapid.IntRange(0, 7).Draw(t, "m-prefix") == 0 {
+			h.Prefix = rapid.SampledFrom([]string{"cache", "mirror/hub"}).Draw(t, "m-prefixv")
+		}
+		h.NoHead = rapid.IntRange(0, 11).Draw(t, "m-nohead") == 0
+		c.Mirrors = append(c.Mirrors, h)
+	}
+	// host settings of "regctl registry set" and the naming of the hosts
+	c.Alias = rapid.SampledFrom([]string{"", "", "", "", "", "", "names", "names", "dockerhub", "dockerhub"}).Draw(t, "alias")
+	c.DupMirror = nm > 0 && rapid.IntRange(0, 11).Draw(t, "dupmirror") == 0
+	c.Slots = rapid.SampledFrom([]int{0, 0, 0, 0, 3, 3, 1}).Draw(t, "slots")
+	if rapid.IntRange(0, 19).Draw(t, "reqpersec") == 0 {
+		c.ReqPerSec = rapid.SampledFrom([]int{500, 2000}).Draw(t, "reqpersecv")
 	}
 	// a good share of topologies with ties (the documented rule for equals) and
 	// with the plain "mirrors above upstream" shape
@@ -165,7 +188,44 @@ func genL1(t *rapid.T) Case {
 		if rapid.IntRange(0, 5).Draw(t, "gap") == 0 {
 			r.GapMs = rapid.IntRange(1, 30).Draw(t, "gapms")
 		}
+		// context state: already cancelled / cancelled while the k-th request is in flight / deadline
+		switch rapid.IntRange(0, 29).Draw(t, "ctx") {
+		case 0:
+			r.Ctx = "cancelled"
+		case 1:
+			r.Ctx, r.CtxK = "cancel-at", rapid.IntRange(1, 3).Draw(t, "ctxk")
+		case 2:
+			r.Ctx, r.CtxK = "deadline", rapid.IntRange(1, 15).Draw(t, "ctxms")
+		}
 		c.Reqs = append(c.Reqs, r)
+	}
+	switch rapid.IntRange(0, 59).Draw(t, "special") {
+	case 0:
+		// the client exactly as every CLI of the repository builds it: no retry limit, no delays given
+		c.Defaults, c.Limit, c.DelayInitMs, c.DelayMaxMs = true, 5, 100, 30000
+		trim := func(h *HostSpec) {
+			if len(h.Word) > 2 {
+				h.Word = h.Word[:2]
+			}
+			h.Tail = nil
+		}
+		trim(&c.Up)
+		for i := range c.Mirrors {
+			trim(&c.Mirrors[i])
+		}
+		if len(c.Reqs) > 2 {
+			c.Reqs = c.Reqs[:2]
+		}
+	case 1, 2:
+		// more hosts than sort.Slice sorts by insertion: the order rule must not depend on the algorithm
+		p := rapid.IntRange(0, 1).Draw(t, "manyprio")
+		c.Up.Prio = p
+		c.Mirrors = nil
+		n := rapid.IntRange(12, 15).Draw(t, "many")
+		for i := 0; i < n; i++ {
+			c.Mirrors = append(c.Mirrors, HostSpec{Prio: p, Has: "lacks"})
+		}
+		c.DupMirror = false
 	}
 	return c
 }
@@ -400,6 +460,41 @@ func genL2(t *rapid.T) Case {
 		if rapid.Bool().Draw(t, "chunk?") {
 			p.Chunk = rapid.SampledFrom([]int{8, 32}).Draw(t, "chunk")
 			p.MaxPut = rapid.SampledFrom([]int{0, 4, 40}).Draw(t, "maxput")
+		}
+	}
+	// library options and reference forms the CLIs use
+	p.Cache = rapid.IntRange(0, 4).Draw(t, "cache") < 2
+	if rapid.IntRange(0, 15).Draw(t, "cancelat") == 0 {
+		p.CancelAt = rapid.IntRange(1, 12).Draw(t, "cancelatk")
+	}
+	switch c.Op {
+	case "blob-put-chunked", "blob-put", "image-copy", "tag-delete":
+		p.HostChunk = (p.Chunk > 0 || p.MaxPut > 0) && rapid.IntRange(0, 2).Draw(t, "hostchunk") == 0
+		if rapid.IntRange(0, 9).Draw(t, "bloblimit") == 0 {
+			p.BlobLimit = rapid.SampledFrom([]int{8, 20, 64}).Draw(t, "bloblimitv")
+		}
+	}
+	switch c.Op {
+	case "blob-put-chunked", "blob-put", "blob-get", "blob-head":
+		p.Sha512 = rapid.IntRange(0, 4).Draw(t, "sha512") == 0
+	case "manifest-get", "manifest-head":
+		if rapid.Bool().Draw(t, "platform") {
+			p.Platform, p.Index = true, true
+		}
+		p.RequireDigest = c.Op == "manifest-head" && rapid.Bool().Draw(t, "requiredigest")
+	case "referrer-list":
+		p.ByTag = rapid.Bool().Draw(t, "bytag")
+		p.ArtifactType = rapid.Bool().Draw(t, "artifacttype")
+	case "repo-list":
+		if rapid.Bool().Draw(t, "repolimit") {
+			p.RepoLimit = 1
+		}
+		if rapid.IntRange(0, 2).Draw(t, "repolast") == 0 {
+			p.Last = "proj/a"
+		}
+	case "tag-list":
+		if p.NTags > 1 && rapid.IntRange(0, 2).Draw(t, "taglast") == 0 {
+			p.Last = "t00"
 		}
 	}
 	// servers that answer a whole request class with 5xx for ever (upload must fail, not loop)
